@@ -1,0 +1,4 @@
+// Package verifhook provides named interleaving/observation points for external
+// runtime monitors. With the "verif" build tag off (the default) Point is an empty
+// function and Flag is constant false, so callers pay nothing and behave unchanged.
+package verifhook
